@@ -48,6 +48,44 @@ func FuzzWrapCases() []FuzzWrapCase {
 			out = append(out, FuzzWrapCase{Name: fmt.Sprintf("case%02d", n), Prop: prop, Input: input, Expect: classOfKind(ref.res.Kind)})
 		}
 	}
+	// the shortest inputs (empty, one byte, around one word) for every program, and properties that
+	// consume nothing at all: the wrapper itself must not decide anything from the length of the input
+	zero := []Prog{
+		{Name: "pass-without-drawing", New: func() func(t *rapid.T, r *Rec) { return func(t *rapid.T, r *Rec) {} }},
+		{Name: "fail-without-drawing", New: func() func(t *rapid.T, r *Rec) {
+			return func(t *rapid.T, r *Rec) { t.Fatalf("fails before its first draw") }
+		}},
+		{Name: "skip-without-drawing", New: func() func(t *rapid.T, r *Rec) { return func(t *rapid.T, r *Rec) { t.Skip("nothing to do") } }},
+		{Name: "errorf-in-cleanup-without-drawing", New: func() func(t *rapid.T, r *Rec) {
+			return func(t *rapid.T, r *Rec) { t.Cleanup(func() { t.Errorf("fails in its cleanup") }) }
+		}},
+	}
+	var short []Prog
+	for _, pn := range progs {
+		if p, ok := byName[pn]; ok {
+			short = append(short, p)
+		}
+	}
+	for _, p := range append(zero, short...) {
+		for _, l := range []int{0, 1, 7, 8, 9, 16} {
+			for _, fill := range []byte{0, 0xff} {
+				if l == 0 && fill != 0 {
+					continue
+				}
+				input := make([]byte, l)
+				for i := range input {
+					input[i] = fill
+				}
+				body := p.New()
+				rec := &Rec{}
+				ref, _ := runWith(p.New(), func(pr func(*rapid.T)) rapid.VerifResult {
+					return rapid.VerifRunBuf(tb, wordsOfBytes(input), false, pr)
+				})
+				n++
+				out = append(out, FuzzWrapCase{Name: fmt.Sprintf("case%02d", n), Prop: c04Prop(body, rec), Input: input, Expect: classOfKind(ref.res.Kind)})
+			}
+		}
+	}
 	return out
 }
 
